@@ -144,6 +144,11 @@ P['c_grandassign'] = prog([('p', [('a', F), ('b', F)],
 P['c_statecls'] = prog([('mkcnt', [('inc', F)], ('lambda', [], B('+', ('self',), V('inc')))),
                         ('dsp', [('a', F)], B('+', ('callv', V('c'), []), a))], globals_=[('c', C('mkcnt', N(0.25)))], globals_last=True)
 
+# `let y = x` copies the value: a later assignment to x (or y) does not reach the other name; also for `self` and destructured names
+P['r_letcopy'] = prog([('dsp', [('a', '(float,float)')], ('let', 'x', a0, ('let', 'y', x, ('assign', 'x', B('+', x, a1), B('+', B('*', y, N(100)), x)))))])
+P['r_letcopy2'] = prog([('dsp', [('a', '(float,float)')], ('lettuple', ['p', 'q'], a, ('let', 'r', V('p'), ('assign', 'r', B('*', V('r'), N(3)), B('+', B('*', V('p'), N(100)), V('r'))))))])
+P['s_letcopyself'] = prog([('acc', [('x', F)], ('let', 'prev', ('self',), ('let', 'cur', V('prev'), ('assign', 'cur', B('+', V('cur'), x), B('+', V('cur'), B('*', V('prev'), N(0))))))),
+                           ('dsp', [('a', F)], C('acc', a))])
 # a fractional delay maximum followed by another cell: the ring must not reach into its neighbour
 P['s_delayfrac'] = prog([('dsp', [('a', '(float,float)')], B('+', ('delay', 4.5, a0, N(2)), B('*', ('mem', a1), N(100))))])
 # literals that a half float cannot represent exactly keep their value (0.001 used to become 0.0010004 on the VM)
